@@ -381,8 +381,16 @@ class Types(object):
                             o, mm = c.lookup(target.attr)
                             if mm is not None:
                                 tfi = mm
-                if tfi is not None and fi.owner is not None:
-                    rec = (fi.owner, tfi, call, fi)
+                owner = fi.owner
+                if owner is None and fi.parent is None:
+                    # a thread factory function: the owner is the executor it is handed
+                    for pn in fi.params:
+                        for t in sorted(self.param_types.get((fi.key, pn), ())):
+                            c = self.cls_of(t)
+                            if c is not None and c.lookup("submit")[1] is not None and c.lookup("shutdown")[1] is not None:
+                                owner = c
+                if tfi is not None and owner is not None:
+                    rec = (owner, tfi, call, fi)
                     if not any(x[2] is call for x in self.thread_targets):
                         self.thread_targets.append(rec)
                         changed = True
